@@ -6,6 +6,7 @@ import GrVerif.Model.SilfLoad
 import GrVerif.Model.CodeLoad
 import GrVerif.Model.RulesLoad
 import GrVerif.Model.GlyphLoad
+import GrVerif.Model.FaceLoad
 namespace Driver.Loader
 open GrVerif.Loader Driver
 
@@ -183,11 +184,32 @@ def stepGlyphs (ws : List String) : String :=
     | _, _, _, _, _ => "bad-op"
   | _ => "bad-op"
 
+def isCompressed (t : List Nat) (minVersion : Nat) : Bool :=
+  decide (t.length ≥ 8 ∧ ((t.getD 0 0 * 256 + t.getD 1 0) * 256 + t.getD 2 0) * 256 + t.getD 3 0 ≥ minVersion ∧ t.getD 4 0 / 8 ≠ 0)
+
+/-- `face <options> <chunk bits> <glyph count of maxp> <Silf> <Gloc> <Glat> <Feat> <Sill>` (hex, `-` = absent) : `gr_make_face` -/
+def stepFace (ws : List String) : String :=
+  match ws with
+  | [opts, cb, ngg, h1, h2, h3, h4, h5] =>
+    match opts.toNat?, cb.toNat?, ngg.toNat?, parseHexUnits 2 h1, parseHexUnits 2 h2, parseHexUnits 2 h3, parseHexUnits 2 h4, parseHexUnits 2 h5 with
+    | some opts, some cb, some ngg, some silf, some gloc, some glat, some feat, some sill =>
+      if cb ≠ chunkBits then "bad-op" else
+      if isCompressed silf.toList 0x00050000 || isCompressed glat.toList 0x00030000 then "compressed" else
+      match loadFace silf.toList gloc.toList glat.toList feat.toList sill.toList ngg ((opts / 2) % 2 = 1) with
+      | .error _ => "fault"
+      | .ok none => "noface"
+      | .ok (some f) =>
+        let passes := f.silfs.map fun t => toString t.fixed.numPasses
+        s!"ok {f.numGlyphs} {f.numFeatures} {f.numLanguages} {f.silfs.length}:{String.intercalate "," passes}"
+    | _, _, _, _, _, _, _, _ => "bad-op"
+  | _ => "bad-op"
+
 def step (line : String) : String :=
   match words line with
   | "classmap" :: rest => stepClassMap rest
   | "code" :: rest => stepCode rest
   | "glyphs" :: rest => stepGlyphs rest
+  | "face" :: rest => stepFace rest
   | "silf" :: rest => stepSilf rest
   | "silftable" :: rest => stepSilfTable rest
   | "sfnt" :: rest => stepSfnt rest
